@@ -3,7 +3,8 @@
 import json, os, re, subprocess, sys, glob
 
 ROOT = os.path.dirname(os.path.dirname(os.path.abspath(__file__)))
-head = subprocess.run(["git", "-C", "/repo", "log", "--format=%h", "-1"], capture_output=True, text=True).stdout.strip()
+REPO = os.environ.get("VERIF_REPO", "/repo")
+head = subprocess.run(["git", "-C", REPO, "log", "--format=%h", "-1"], capture_output=True, text=True).stdout.strip()
 only = sys.argv[1:]
 rows = []
 for d in sorted(glob.glob(os.path.join(ROOT, "seeded", "*"))):
@@ -14,7 +15,7 @@ for d in sorted(glob.glob(os.path.join(ROOT, "seeded", "*"))):
     patch = os.path.join(d, "patch.diff")
     meta_p = os.path.join(d, "meta.json")
     meta = json.load(open(meta_p))
-    ok = subprocess.run(["git", "-C", "/repo", "apply", "--check", patch], capture_output=True).returncode == 0
+    ok = subprocess.run(["git", "-C", REPO, "apply", "--check", patch], capture_output=True).returncode == 0
     if not ok:
         meta["detected_by"] = {"repo_head": head, "applies": False}
         json.dump(meta, open(meta_p, "w"), indent=1)
